@@ -97,6 +97,8 @@ def run(ctx):
     from . import c12
     c12.r7_csv_dialect(ctx, rule="C14.R14")
     r15_constructor_forwards(ctx)
+    r16_source_adds_no_dialect(ctx)
+    r17_readers_stateless(ctx)
 
 
 def _final_loops(fn):
@@ -211,6 +213,46 @@ def r5_take(ctx, init):
 PRIM = "coba/primitives.py"
 RDR = "coba/pipes/readers.py"
 ENVC = "coba/environments/core.py"
+
+
+def r16_source_adds_no_dialect(ctx, rule="C14.R16"):
+    """C14.R14 one level up: CsvSource hands its caller's dialect options to CsvReader untouched (a source-side default such as skipinitialspace changes the cells as well)."""
+    ctx.rule(rule, "CsvSource.__init__ builds its CsvReader with the caller's **dialect as given: the keyword mapping is forwarded with ** and is neither written to "
+                   "(setdefault / update / item assignment) nor re-bound before the call")
+    fn = ctx.fn(SUP, "CsvSource.__init__")
+    KW = fn.args.kwarg.arg if fn.args.kwarg else None
+    calls = [c for c in ast.walk(fn) if isinstance(c, ast.Call) and call_name(c) == "CsvReader"]
+    ctx.floor(rule, "CsvReader constructions in CsvSource.__init__", len(calls), 1)
+    touched = [x for x in ast.walk(fn) if (isinstance(x, ast.Call) and isinstance(x.func, ast.Attribute) and isinstance(x.func.value, ast.Name) and x.func.value.id == KW and x.func.attr in ("setdefault", "update", "pop", "popitem", "clear"))
+               or (isinstance(x, (ast.Assign, ast.AugAssign, ast.Delete)) and any((isinstance(t, ast.Subscript) and isinstance(t.value, ast.Name) and t.value.id == KW) or (isinstance(t, ast.Name) and t.id == KW)
+                                                                                 for t in (x.targets if not isinstance(x, ast.AugAssign) else [x.target])))]
+    for c in calls:
+        fwd = [(k.arg, unparse(k.value)) for k in c.keywords if k.arg is None] == [(None, KW)] and not [k for k in c.keywords if k.arg in ("skipinitialspace", "quotechar", "escapechar", "doublequote", "quoting", "strict")]
+        ctx.ob(rule, SUP, "CsvSource.__init__", c, "the reader parses with exactly the dialect the caller gave", KW is not None and fwd and not touched, detail={"call": unparse(c), "writes": [unparse(t)[:60] for t in touched]})
+
+
+def r17_readers_stateless(ctx, rule="C14.R17"):
+    """'the number and order of interactions equal those of the examples' on EVERY read: a source is read once per evaluation, through the same reader object."""
+    ctx.rule(rule, "the file readers that live as long as their source (every class of pipes/readers.py that is not built inside a filter() / read() call) keep nothing between "
+                   "reads: outside __init__ they store no attribute on self, and they declare no class-level placeholder that a read fills in")
+    mod = ctx.model.modules[RDR]
+    classes = [c for c in ast.walk(mod.tree) if isinstance(c, ast.ClassDef)]
+    per_read = set()
+    for c in classes:   # classes constructed only inside filter()/read() bodies are per-read parser state (ArffLineReader)
+        sites = [k for k in ast.walk(mod.tree) if isinstance(k, ast.Call) and call_name(k) == c.name]
+        from ..model import enclosing_function
+        if sites and all((enclosing_function(k) is not None and enclosing_function(k).name in ("filter", "read")) for k in sites):
+            per_read.add(c.name)
+    n = 0
+    for c in classes:
+        if c.name in per_read or not any(isinstance(f, ast.FunctionDef) and f.name == "filter" for f in c.body):
+            continue
+        n += 1
+        writes = [x for f in c.body if isinstance(f, ast.FunctionDef) and f.name != "__init__" for x in ast.walk(f)
+                  if isinstance(x, (ast.Assign, ast.AugAssign)) and any(is_self_attr(t) or (isinstance(t, ast.Subscript) and is_self_attr(t.value)) for t in (x.targets if isinstance(x, ast.Assign) else [x.target]))]
+        ctx.ob(rule, RDR, c.name, (writes or [c])[0], "the reader stores nothing on itself while it reads", not writes, detail={"stores": [unparse(w)[:60] for w in writes]}, stmt=f"{c.name}: no state between reads")
+    ctx.floor(rule, "long-lived reader classes", n, 3)
+    ctx.note(f"{rule}: per-read parser classes (built inside filter/read): {sorted(per_read)}")
 
 
 def r15_constructor_forwards(ctx, rule="C14.R15"):
@@ -411,6 +453,8 @@ def r9_label_key_domain(ctx):
 
 
 CONTROLS = [
+    ("CsvSource adds a dialect default of its own", SUP, M.insert_before("CsvSource.__init__", M.text_has("reader = CsvReader"), "dialect.setdefault('skipinitialspace', True)"), "C14.R16"),
+    ("CsvReader remembers the header of its first read", RDR, M.insert_before("CsvReader.filter", lambda st: isinstance(st, ast.If), "self._head_rows = first"), "C14.R17"),
     ("CsvReader drops blanks behind delimiters by default", RDR, M.replace_stmt("CsvReader.__init__", M.text_has("self._dialect ="), "self._dialect = {'skipinitialspace': True, **dialect}"), "C14.R14"),
     ("from_supervised samples the finished simulation", ENVC, M.replace_stmt("Environments.from_supervised", lambda st: isinstance(st, ast.Return),
         "take = kwargs.pop('take', None)\nenvs = Environments(SupervisedSimulation(*args, **kwargs))\nreturn envs if take is None else envs.reservoir(take)"), "C14.R15"),
